@@ -234,10 +234,17 @@ class Ctx:
 
     def violation(self, mechanism, case, detail, finding=None):
         """case must be JSON-able and sufficient for props.cNN.replay(case)"""
-        if len(self.violations) < 200:
-            self.violations.append({'mechanism': mechanism, 'case': case, 'detail': detail,
-                                    'finding': finding})
-        self.count('violations_raw')
+        # records explained by a known-finding classifier are capped per finding, so that they can never
+        # crowd an unexplained violation out of the report
+        if finding:
+            self.count('known:' + finding)
+            if self.counters['known:' + finding] > 10:
+                return
+        else:
+            self.count('violations_raw')
+            if self.counters['violations_raw'] > 200:
+                return
+        self.violations.append({'mechanism': mechanism, 'case': case, 'detail': detail, 'finding': finding})
 
     def inconc(self, reason, case=None):
         if len(self.inconclusive) < 50:
